@@ -217,6 +217,13 @@ def normalizeCol (lo hi x : Rat) : Rat := (x - lo) / (hi - lo)
 /-- `x · (upper − lower) + lower` -/
 def unnormalizeCol (lo hi x : Rat) : Rat := x * (hi - lo) + lo
 
+/-- `normalize`'s column formula over a `RealLike` carrier (the term `harness/translate.py` regenerates
+from the source text of `vopy/utils/utils.py:normalize`; `Proofs/GenAgreeC20.lean`) -/
+def normalizeColF {α : Type} [RealLike α] (lo hi x : α) : α := (x - lo) / (hi - lo)
+
+/-- `unnormalize`'s column formula over a `RealLike` carrier -/
+def unnormalizeColF {α : Type} [RealLike α] (lo hi x : α) : α := x * (hi - lo) + lo
+
 def rowWise (f : Rat → Rat → Rat → Rat) (bounds : List (Rat × Rat)) (row : Vec) : Vec :=
   List.zipWith (fun b x => f b.1 b.2 x) bounds row
 
